@@ -26,6 +26,7 @@ RULE = ('repeated hits (3-12 per case, varying locals) of a tracepoint placed in
         'by its condition and a later one was due, or an expression named a non-local; distinct by canonical case')
 ASSUMPTIONS = ['conditions are boolean-valued or failing; expressions are side-effect free',
                'an error result may be carried either in the error field or as a result typed as the exception']
+RULE += '; a condition whose value cannot be turned into text'
 REQUIRE = {'neighbour_with_own_condition': 100, 'hits_checked': 3000, 'rejected_then_due': 150, 'failing_conditions': 100, 'global_scope_exprs': 150,
            'agent_name_exprs': 50, 'module_level_cases': 20, 'closure_cases': 20,
            'padded_expression_cases': 80}
